@@ -134,6 +134,38 @@ fn cmd_run(prop: &str, tier: Tier) -> i32 {
             }
         }
     }
+    // batch-level statistical clauses
+    {
+        let mut agg_all = Agg::default();
+        for pr in &parts {
+            agg_all.merge(&pr.agg);
+        }
+        for v in registry::batch_check(prop, &agg_all) {
+            let path = replay_dir.join(format!("batch-{}-{}.json", tier.as_str(), verif_seed()));
+            let rf = ReplayFile {
+                property: prop.to_string(),
+                scenario: "#batch".to_string(),
+                seed: verif_seed(),
+                run: 0,
+                profile: "release".to_string(),
+                tier: tier.as_str().to_string(),
+                cfg: json!({"note": "batch-level statistic: replay re-runs the whole batch with this seed and tier"}),
+                actions: vec![],
+                violation: v.clone(),
+                minimised_from: 0,
+            };
+            std::fs::write(&path, serde_json::to_vec_pretty(&rf).unwrap()).ok();
+            if let Some(k) = known.iter().find(|k| k.property == prop && k.class == v.invariant) {
+                println!("KNOWN-FINDING: property={} {} :: {}", prop, v.invariant, k.desc);
+                known_hit.push(v.invariant.clone());
+                printed_known.insert(v.invariant.clone());
+            } else {
+                violations += 1;
+                viol_lines.push(format!("VIOLATION property={} replay={}", prop, path.display()));
+                eprintln!("  class: {}\n  detail: {}", v.invariant, v.detail);
+            }
+        }
+    }
     for l in &viol_lines {
         println!("{l}");
     }
@@ -223,6 +255,13 @@ fn cmd_replay(file: &Path, quiet: bool) -> i32 {
         }
         let st = c.status().unwrap_or_else(|e| harness_fail(&format!("exec sibling: {e}")));
         return st.code().unwrap_or(2);
+    }
+    if rf.scenario == "#batch" {
+        // a batch-level statistic: re-run the batch (same seed, same tier) through the driver
+        // SAFETY: single-threaded at this point
+        unsafe { std::env::set_var("VERIF_SEED", rf.seed.to_string()) };
+        let tier = Tier::parse(&rf.tier).unwrap_or(Tier::Quick);
+        return cmd_run(&rf.property, tier);
     }
     let Some(sc) = registry::find_scenario(&rf.scenario) else { harness_fail("unknown scenario in replay file") };
     let script = ScriptJson { cfg: rf.cfg.clone(), actions: rf.actions.clone() };
